@@ -286,12 +286,25 @@ func (e *Exec) doUnOp(fr *Frame, x *ssa.UnOp, st *State, g string) {
 			// load of a whole struct through a reference: token with field projections
 			ref := xv.T
 			e.safety(fr, x, g, Not(Eq(ref, "0")), "nil-deref")
-			tok := e.Out.Fresh(fr.prefix+x.Name(), SInt)
 			su := pt.Underlying().(*types.Struct)
+			// struct values are tokens built by an (uninterpreted) constructor from their field values, so that
+			// two loads of equal fields give equal values (struct equality is field-wise)
+			var fsorts []Sort
+			var fterms []string
 			for i := 0; i < su.NumFields(); i++ {
 				h, hs, ft := e.fieldHeap(pt, i)
+				fsorts = append(fsorts, e.sortOf(ft))
+				fterms = append(fterms, e.read1(e.get(st, h, hs), ref))
+			}
+			mk := e.Out.DeclareFun("mk$"+e.typeName(pt), fsorts, SInt)
+			tok := e.Out.Define(fr.prefix+x.Name(), SInt, App(mk, fterms...))
+			if su.NumFields() == 0 {
+				tok = e.Out.Define(fr.prefix+x.Name(), SInt, "0")
+			}
+			for i := 0; i < su.NumFields(); i++ {
+				_, _, ft := e.fieldHeap(pt, i)
 				proj := e.Out.DeclareFun("SF$"+e.typeName(pt)+"."+su.Field(i).Name(), []Sort{SInt}, e.sortOf(ft))
-				e.Out.Assert(Eq(App(proj, tok), e.read1(e.get(st, h, hs), ref)))
+				e.Out.Assert(Eq(App(proj, tok), fterms[i]))
 			}
 			fr.vals[x] = Val{T: tok, S: SInt, Ty: x.Type()}
 			return
@@ -624,7 +637,19 @@ func (e *Exec) doStore(fr *Frame, x *ssa.Store, st *State, g string) {
 	v := e.val(fr, x.Val)
 	pt := x.Addr.Type().Underlying().(*types.Pointer).Elem()
 	if su, isStruct := pt.Underlying().(*types.Struct); isStruct && av.Addr == nil {
-		// store of a whole struct through a reference
+		// store of a whole struct through a reference (and: the token is the constructor applied to its fields)
+		if su.NumFields() > 0 {
+			var fsorts []Sort
+			var projs []string
+			for i := 0; i < su.NumFields(); i++ {
+				_, _, ft := e.fieldHeap(pt, i)
+				fsorts = append(fsorts, e.sortOf(ft))
+				proj := e.Out.DeclareFun("SF$"+e.typeName(pt)+"."+su.Field(i).Name(), []Sort{SInt}, e.sortOf(ft))
+				projs = append(projs, App(proj, v.T))
+			}
+			mk := e.Out.DeclareFun("mk$"+e.typeName(pt), fsorts, SInt)
+			e.Out.Assert(Eq(App(mk, projs...), v.T))
+		}
 		for i := 0; i < su.NumFields(); i++ {
 			h, hs, ft := e.fieldHeap(pt, i)
 			proj := e.Out.DeclareFun("SF$"+e.typeName(pt)+"."+su.Field(i).Name(), []Sort{SInt}, e.sortOf(ft))
@@ -751,6 +776,13 @@ func (e *Exec) doNext(fr *Frame, x *ssa.Next, st *State, g string) {
 
 // globalFacts asserts the known initial contents of constant package-level byte arrays/slices.
 func (e *Exec) globalFacts(g *ssa.Global, st *State) {
+	if e.P.globalIsNewError(g) {
+		// package-level error values made by errors.New: non-nil and pairwise distinct
+		name := "G$" + e.qual(g.Pkg.Pkg) + "." + g.Name()
+		e.P.Trusted["immutable-global: "+g.Pkg.Pkg.Path()+"."+g.Name()+" keeps its errors.New value (non-nil, distinct from other error values)"] = true
+		e.Out.Assert(Eq(e.get(st, name, SAny), "(any_i "+IntLit(int64(e.P.typeID(types.Typ[types.UnsafePointer])))+" "+e.globalBase(name)+")"))
+		return
+	}
 	vals, isSlice, ok := e.P.globalBytes(g)
 	if !ok {
 		return
